@@ -104,11 +104,22 @@ func mkV4(rows [][]float64, spare int) []vector4.Float64 {
 func v3of(v []float64) vector3.Float64 { return vector3.New(at(v, 0), at(v, 1), at(v, 2)) }
 func v2of(v []float64) vector2.Float64 { return vector2.New(at(v, 0), at(v, 1)) }
 
+// the material with identity id.  Its content is deliberately "unnormalised" (a name with a space, colours and
+// texture present for some ids only): an operation that tidies a material up THROUGH THE POINTER a mesh holds changes
+// what every mesh holding that pointer reports (see matID)
 func material(id int) *modeling.Material {
 	if id < 0 {
 		return nil
 	}
-	return &modeling.Material{Name: fmt.Sprintf("mat%d", id), SpecularHighlight: float64(id)}
+	m := &modeling.Material{Name: fmt.Sprintf("mat %d", id), SpecularHighlight: float64(id)}
+	if id%2 == 0 {
+		m.DiffuseColor = color.RGBA{uint8(20 * id), 10, 200, 255}
+	}
+	if id%3 == 0 {
+		uri := fmt.Sprintf("tex %d.png", id)
+		m.ColorTextureURI = &uri
+	}
+	return m
 }
 
 // padded row for the model: exactly k integers
